@@ -51,6 +51,22 @@ Theorem C02_limit_refuted :
 Proof. split; [exists w_limit_zero; exact limit_zero_refuted|exists w_limit_order; exact limit_order_refuted]. Qed.
 Print Assumptions C02_limit_refuted.
 
+(* the guards are not wider than the failing classes: inside the trim guard the key listing differs
+   from the ordered map's, inside the get guard Get differs, inside the limit-zero guard allDeleted differs *)
+Theorem C02_guards_exact : forall t m,
+  Trie.MapProofs.Rep t m ->
+  (forall p, guard_trim m p = true -> trie_keys_with_prefix t p <> Ok (bm_keys_with_prefix m p)) /\
+  (forall k, guard_get_exhausted t k = true -> trie_get t k <> bm_get m k) /\
+  (forall p limit, guard_limit_zero m p limit = true ->
+     snd (trie_clear_prefix_limit t p limit) <> snd (bm_clear_prefix_limit m p limit)).
+Proof.
+  intros t m R. split; [|split].
+  - intros p G. exact (guard_trim_exact_keys t m p R G).
+  - intros k G. exact (guard_get_exact t m k R G).
+  - intros p limit G. exact (guard_limit_zero_exact t m p limit G).
+Qed.
+Print Assumptions C02_guards_exact.
+
 (* the pinned tree violated the statement outside every guard (fixed by fixes/C02-get-diverging-key,
    C02-delete-diverging-key, C02-keys-prefix-descent, C02-get-exhausted-key-nested,
    C02-delete-exhausted-key-nested) *)
